@@ -194,7 +194,13 @@ def check_weaver(ctx, wm: WeaverModel):
     else:
         lo = w1[0]
         known = any(lo == r for r in idiom_values(v1))
-        if not known:
+        from .common import tolerance_events
+        tol = tolerance_events(mf1.ev) + tolerance_events(mf2.ev)
+        if tol:
+            ctx.fail('C11.4', 'slice_by_value: a bound is looked up by exact equality with a sample',
+                     f"tolerance-based comparison {sorted({e.data['name'] for e in tol})} at {tol[0].loc()}: with the default tolerances the first sample within "
+                     f"tolerance is taken (scale-dependent), not the sample equal to the bound", tol[0].loc(), mf1.fi.qualname, 'sbv:exact')
+        elif not known:
             ctx.unknown('C11.4', 'slice_by_value: lookup of the start sample', f"index expression not among the recognised lookups of a value in x: {sym.show(lo)[:200]}",
                         mf1.fi.loc(), mf1.fi.qualname, 'sbv:idiom')
         else:
